@@ -9,13 +9,13 @@ PLAN = {
     "quick": [
         replays("C16"),
         tape("C16", 0, mode="ex", bound=155, flavour="plain", case_timeout=300),
-        tape("C16", 4000, size=300),
+        tape("C16", 4000, size=300, case_timeout=600),
     ],
     "thorough": [
         replays("C16"),
         tape("C16", 0, mode="ex", bound=155, flavour="asan", case_timeout=600),
         tape("C16", 0, mode="ex", bound=55, flavour="plain", case_timeout=600),
-        tape("C16", 60000, size=400),
+        tape("C16", 60000, size=400, case_timeout=600),
     ],
     # floors are fractions of all evaluations, most of which are the 111 111 enumerated strings: they only guard against a
     # random-tier generator that stops producing a class at all
